@@ -4,6 +4,7 @@ mod drv;
 mod monitor;
 mod oracle;
 mod props;
+mod py;
 mod refm;
 mod spec;
 mod util;
@@ -28,6 +29,16 @@ fn main() {
             };
             let code = props::run(&args[2], tier, seed);
             std::process::exit(code);
+        }
+        "pygen" => {
+            // oxverif pygen <out.json> <quick|thorough>
+            let tier = if args.get(3).map(|s| s.as_str()) == Some("thorough") { Tier::Thorough } else { Tier::Quick };
+            std::process::exit(py::pygen(&args[2], tier, seed));
+        }
+        "pyverify" => {
+            // oxverif pyverify <C19|C20> <scenarios.json> <results.json> <quick|thorough>
+            let tier = if args.get(5).map(|s| s.as_str()) == Some("thorough") { Tier::Thorough } else { Tier::Quick };
+            std::process::exit(py::pyverify(&args[2], &args[3], &args[4], tier, seed));
         }
         "replay" => {
             let code = props::replay(&args[2]);
